@@ -127,7 +127,7 @@ def rule_rt6(A: Analysis, rep):
     st = [s for s in walk_local(init.node) if isinstance(s, ast.Assign) and norm(s.targets[0]) == "self._version_to_record"]
     rep.check(len(st) == 1 and norm(st[0].value) == "version_to_record", "RT6", "version field", init.node, "", "_version_to_record is not the constructor argument", deep=False)
     # the generator skips directories that already exist (so a fresh run succeeds)
-    cnv = A.fn("task_types.run.RunExperiment._create_new_version")
+    cnv = A.fn("task_types.run.RunExperiment.create_new_version")   # its private helper, if any, is inlined
     loops = [l for l in walk_local(cnv.node) if isinstance(l, ast.While) and A.calls_in(l, "VersionIndex.generate_new_output_version")]
     ok = False
     det = "no retry loop around generate_new_output_version"
@@ -158,7 +158,7 @@ def rule_rt6(A: Analysis, rep):
             ok = okp
             det = "the retry loop continues under [%s]" % " | ".join(fmt_conj(c) for c in cont)
     rep.check(ok, "RT6", "new versions skip existing directories", cnv.node, "a new version is generated again exactly while its output directory already exists",
-              "_create_new_version no longer skips versions whose output directory already exists (a same-second re-run would fail or reuse it): " + det)
+              "create_new_version no longer skips versions whose output directory already exists (a same-second re-run would fail or reuse it): " + det)
 
 
 # --------------------------------------------------------------------------- GC
